@@ -109,6 +109,10 @@ def materialise(spec, v):
         # termination: between the listing of the children and their turn in the loop, or just before the
         # escalation; the other children must still get the stop signal and the final SIGKILL
         h['kid_death'] = [rnd.choice([1, 1, 2, 2, 3, 4, 5, 6, 8, 12, 20, 30]), rnd.randint(0, 2)]
+    if rnd.random() < .15:
+        # the wall clock is stepped (ntp, an administrator) at a kernel-call boundary of the termination; the
+        # grace period is a duration, not a date
+        h['clock'] = [rnd.choice([1, 2, 3, 5, 8, 12, 20, 30]), rnd.choice([-3600.0, 3600.0, -5.0, 5.0, -0.5, 86400.0])]
     if setvia:
         # configure stop_signal / graceful_timeout through `set` instead of the constructor
         w2 = dict(w)
@@ -199,6 +203,13 @@ def _history(w, h, res):
     t_cause = w.clock.now
     live0 = k.live(simhist.tag_of('a'))
     victims = None
+    if h.get('clock'):
+        coff, delta = h['clock']
+
+        def step(kern, delta=delta):
+            w.clock.wall_offset += delta
+            res.obs['wall_clock_steps_during_termination'] += 1
+        k.inject[k.calls + coff] = step
     if h.get('kid_death'):
         off, idx = h['kid_death']
 
@@ -207,7 +218,8 @@ def _history(w, h, res):
             if kids:
                 kern.schedule_death(kern.procs[kids[idx % len(kids)]], 0.0, 9, 'ext')
                 res.obs['children_vanished_during_termination'] += 1
-        k.inject[k.calls + off] = vanish
+        prev = k.inject.get(k.calls + off)
+        k.inject[k.calls + off] = vanish if prev is None else (lambda kern, a=prev, b=vanish: (a(kern), b(kern)))
     if cause == 'stop':
         w.req('stop', name='a', waiting=True)
     elif cause == 'restart':
